@@ -14,7 +14,9 @@
           R,<op>,<ethsrc>,<smac>,<sip>,<tmac>,<tip>    ProcessPacket on a valid ARP frame (op decimal), up to the write of a spoof reply
           RR,<k>                      the write of the k-th spoof reply in flight
           X,<ethertype hex4>,<payload hex|->           ProcessPacket on any frame Parse hands over
-          O,<mac>,<ip|->              the session's DHCP offer for mac is set / cleared
+          O,<mac>,<ip|->              the session's DHCP offer for mac is set / cleared (SetDHCPv4IPOffer, or the entry vanished)
+          U,<mac>,<ip>                session.DHCPv4Update(mac, ip): the offer of mac becomes ip
+          OV,<mac>,<ip|->             observed IP4Offer field without a DHCP event (model follows, monitor does not see it)
           F,<k>                       the connection fails its next k writes
           AR,<ip>  AT,<dst>,<ip>  AP,<ip>  AA,<dst>,<ip>       Request / RequestTo / Probe / AnnounceTo
           AW,<dst>,<smac>,<sip>,<tmac>,<tip>   AY,<dst>,...     RequestRaw / Reply
@@ -123,13 +125,33 @@ Definition parse_event (t : string) : option event :=
   | _ => None
   end.
 
-Fixpoint parse_events (l : list string) : option (list event) :=
+(* "U,<mac>,<ip>": session.DHCPv4Update(mac, ip) — for the handler it is the offer of mac becoming ip (session.go:
+   "host.MACEntry.IP4Offer = host.Addr.IP"), i.e. SetOffer mac (Some ip), and a DHCP event of the history.
+   "OV,<mac>,<ip|->": the harness OBSERVED the session's IP4Offer field reading this value although no DHCP event
+   put it there: the model follows the field (SetOffer), the monitor does NOT see it (flag false): the property's
+   "outstanding offer" is a matter of the history of DHCP events, not of a stale field. *)
+Definition parse_event_flag (t : string) : option (event * bool) :=
+  match commas t with
+  | [k; a; b] =>
+      if String.eqb k "U" then
+        match hexN 6 a, hexN 4 b with Some m, Some i => Some (SetOffer m (Some i), true) | _, _ => None end
+      else if String.eqb k "OV" then
+        match hexN 6 a with
+        | Some m => if String.eqb b "-" then Some (SetOffer m None, false)
+                    else match hexN 4 b with Some i => Some (SetOffer m (Some i), false) | None => None end
+        | None => None
+        end
+      else option_map (fun e => (e, true)) (parse_event t)
+  | _ => option_map (fun e => (e, true)) (parse_event t)
+  end.
+
+Fixpoint parse_events (l : list string) : option (list (event * bool)) :=
   match l with
   | [] => Some []
   | t :: r =>
       match t with
       | String "@"%char _ => parse_events r     (* schedule token of the harness: not an event *)
-      | _ => match parse_event t, parse_events r with
+      | _ => match parse_event_flag t, parse_events r with
              | Some e, Some es => Some (e :: es)
              | _, _ => None
              end
@@ -202,9 +224,18 @@ Fixpoint after_restore (c : cfg) (restored : list mac) (pos : nat) (tr : list (s
       ((if bad then [pos] else []) ++ after_restore c restored' (S pos) r)%list
   end.
 
-Definition run_seq (c : cfg) (evs : list event) : string :=
-  let tr := trace c init_state evs in
-  let obs := show_outputs c tr in
+Fixpoint visible {A} (flags : list bool) (l : list A) : list A :=
+  match flags, l with
+  | true :: fr, x :: r => x :: visible fr r
+  | false :: fr, _ :: r => visible fr r
+  | _, _ => []
+  end.
+
+Definition run_seq (c : cfg) (fevs : list (event * bool)) : string :=
+  let evs := map fst fevs in
+  let tr0 := trace c init_state evs in
+  let obs := show_outputs c tr0 in
+  let tr := visible (map snd fevs) tr0 in       (* what the monitor is shown: everything but OV observations *)
   let vs := sp_run c sp_init (map (fun x => (snd (fst x), snd x)) tr) in
   let ex := (explain_all c 0 tr vs
              ++ map (fun pos => (pos, VRestoreLast, Some KEY_AFTER_RESTORE)) (after_restore c [] 0 tr))%list in
